@@ -55,3 +55,74 @@ Proof.
       * intro Q. apply mem_In in Q. congruence.
       * apply D in Q. intro R. apply Q. right. exact R.
 Qed.
+
+(* ---- replacement outputs that exist already ---------------------------------------------------------------------------- *)
+Lemma has_In : forall x l, has x l = true <-> In x l.
+Proof.
+  intros. unfold has. rewrite existsb_exists. split.
+  - intros [y [H1 H2]]. apply Nat.eqb_eq in H2. subst. exact H1.
+  - intro H. exists x. split; auto. apply Nat.eqb_refl.
+Qed.
+
+(* as read: Identity(x) -> x with x a graph input (object 0), t (object 1) interior: the input is renamed *)
+Theorem returned_value_as_read_refuted :
+  exists created pinned olds news vs outs fresh r,
+    splice_names false created pinned true olds news vs outs fresh = Some r /\
+    names_of_objects [0] (fst (fst (fst r))) <> names_of_objects [0] vs.
+Proof.
+  exists [], [0; 2], [1], [0], [(0, "x"); (1, "t"); (2, "o")], [2], 3. eexists. split; [reflexivity|]. vm_compute. discriminate.
+Qed.
+
+(* repaired: no graph input (more generally: no pinned object below `fresh` that is not created) changes its name *)
+Lemma splice1_keeps : forall created pinned outs0 st on x,
+  In x pinned -> ~ In x created -> x < snd (fst st) ->
+  let st' := splice1 true created pinned outs0 st on in
+  name_of x (fst (fst (fst st'))) = name_of x (fst (fst (fst st))) /\ snd (fst st) <= snd (fst st').
+Proof.
+  intros created pinned outs0 [[[vs outs] fresh] k] [o n] x Hp Hc Hf. simpl in Hf. unfold splice1. simpl negb. simpl orb.
+  destruct (has n created) eqn:C; [|destruct (has o outs0) eqn:G; [destruct (has n pinned) eqn:P|]]; simpl; split; auto; unfold name_of.
+  - rewrite (dget_dset_other Nat.eqb nat_eqb_eq); auto. intro; subst. apply has_In in C. contradiction.
+  - rewrite (dget_dset_other Nat.eqb nat_eqb_eq); auto. lia.
+  - rewrite (dget_dset_other Nat.eqb nat_eqb_eq); auto. intro; subst. apply has_In in Hp. congruence.
+Qed.
+
+Theorem returned_value_fixed : forall created pinned is_fwd olds news vs outs fresh r inputs,
+  splice_names true created pinned is_fwd olds news vs outs fresh = Some r ->
+  (forall x, In x inputs -> In x pinned /\ ~ In x created /\ x < fresh) ->
+  names_of_objects inputs (fst (fst (fst r))) = names_of_objects inputs vs.
+Proof.
+  unfold splice_names. intros created pinned is_fwd olds news vs outs fresh r inputs H Hin.
+  destruct is_fwd; simpl in H; try discriminate. inversion H; subst r. clear H.
+  assert (G : forall l st, (forall x, In x inputs -> In x pinned /\ ~ In x created /\ x < snd (fst st)) ->
+            names_of_objects inputs (fst (fst (fst (fold_left (splice1 true created pinned outs) l st))))
+            = names_of_objects inputs (fst (fst (fst st)))).
+  { induction l as [|on t IH]; intros st Hst; simpl; auto.
+    rewrite IH.
+    - unfold names_of_objects. apply map_ext_in. intros x Hx. destruct (Hst x Hx) as [A [B C]].
+      apply (splice1_keeps created pinned outs st on x A B C).
+    - intros x Hx. destruct (Hst x Hx) as [A [B C]]. split; auto. split; auto.
+      pose proof (splice1_keeps created pinned outs st on x A B C) as [_ L]. simpl in L. lia. }
+  apply (G (combine olds news) (vs, outs, fresh, 0)). simpl. exact Hin.
+Qed.
+
+(* repaired, one pattern output: the names of the graph outputs, read in order, do not change either *)
+Theorem returned_value_fixed_output_names_single : forall created pinned o n vs outs fresh r,
+  splice_names true created pinned false [o] [n] vs outs fresh = Some r ->
+  (forall y, In y outs -> In y pinned /\ ~ In y created /\ y < fresh) ->
+  names_of_objects (snd (fst (fst r))) (fst (fst (fst r))) = names_of_objects outs vs.
+Proof.
+  unfold splice_names. simpl. intros created pinned o n vs outs fresh r H Hout. inversion H; subst r. clear H.
+  unfold splice1. simpl negb. simpl orb.
+  assert (R : forall x, ~ In x outs ->
+            names_of_objects (map (fun y => if Nat.eqb y o then x else y) outs) (dset Nat.eqb x (name_of o vs) vs)
+            = names_of_objects outs vs).
+  { intros x Hx. unfold names_of_objects. rewrite map_map. apply map_ext_in. intros y Hy. unfold name_of at 1.
+    destruct (Nat.eqb y o) eqn:E.
+    - apply Nat.eqb_eq in E. subst y. rewrite (dget_dset_same Nat.eqb nat_eqb_eq). reflexivity.
+    - rewrite (dget_dset_other Nat.eqb nat_eqb_eq); auto. intro; subst. contradiction. }
+  destruct (has n created) eqn:C; [|destruct (has o outs) eqn:G; [destruct (has n pinned) eqn:P|]]; simpl.
+  - apply R. intro Q. apply Hout in Q. destruct Q as [_ [Q _]]. apply has_In in C. contradiction.
+  - apply R. intro Q. apply Hout in Q. lia.
+  - apply R. intro Q. apply Hout in Q. destruct Q as [Q _]. apply has_In in Q. congruence.
+  - reflexivity.
+Qed.
